@@ -70,7 +70,8 @@ Theorem C02_source_layouts :
   Gen.Layouts.rd_PrivateHeader = Spec.PublishedLayouts.rd_PrivateHeader /\
   Gen.Layouts.rd_UserHeader = Spec.PublishedLayouts.rd_UserHeader /\
   Gen.Layouts.rd_ExtendedUserHeader = Spec.PublishedLayouts.rd_ExtendedUserHeader /\
-  Gen.Layouts.rd_FailingMTMS = Spec.PublishedLayouts.rd_FailingMTMS.
+  Gen.Layouts.rd_FailingMTMS = Spec.PublishedLayouts.rd_FailingMTMS /\
+  Gen.Layouts.rd_ImpactedPartition = Spec.PublishedLayouts.rd_ImpactedPartition.
 Proof. repeat split; reflexivity. Qed.
 Print Assumptions C02_source_layouts.
 
@@ -78,7 +79,8 @@ Theorem C02_source_displays :
   Gen.Layouts.sh_PrivateHeader = Spec.PublishedLayouts.sh_PrivateHeader /\
   Gen.Layouts.sh_UserHeader = Spec.PublishedLayouts.sh_UserHeader /\
   Gen.Layouts.sh_ExtendedUserHeader = Spec.PublishedLayouts.sh_ExtendedUserHeader /\
-  Gen.Layouts.sh_FailingMTMS = Spec.PublishedLayouts.sh_FailingMTMS.
+  Gen.Layouts.sh_FailingMTMS = Spec.PublishedLayouts.sh_FailingMTMS /\
+  Gen.Layouts.sh_ImpactedPartition = Spec.PublishedLayouts.sh_ImpactedPartition.
 Proof. repeat split; reflexivity. Qed.
 Print Assumptions C02_source_displays.
 
